@@ -1,4 +1,7 @@
+pub mod c01;
+pub mod c02;
 pub mod c04;
+pub mod frun_common;
 pub mod c05;
 pub mod c06;
 pub mod c14;
@@ -11,6 +14,9 @@ use crate::Ctx;
 
 pub fn run(ctx: &Ctx, sink: &mut Sink) -> bool {
     match ctx.prop.as_str() {
+        "C01" => c01::run_prop(ctx, sink),
+        "C02" => c02::run_c02(ctx, sink),
+        "C03" => c02::run_c03(ctx, sink),
         "C04" => c04::run_prop(ctx, sink),
         "C19" => c19::run_prop(ctx, sink),
         "C20" => c20::run_prop(ctx, sink),
